@@ -82,6 +82,7 @@ pub fn quick_domain() -> Vec<u32> {
     }
     v.sort_unstable();
     v.dedup();
+    v.push(0x8000_0000); // -0.0 is a component value in [0,1] too
     v
 }
 
@@ -99,19 +100,20 @@ impl Dom {
     pub fn len(&self) -> u64 {
         match self {
             Dom::List(v) => v.len() as u64,
-            Dom::AllF01 => ONE_BITS as u64 + 1,
+            Dom::AllF01 => ONE_BITS as u64 + 2,
         }
     }
     pub fn slice(&self, lo: u64, hi: u64) -> Vec<f32> {
         match self {
             Dom::List(v) => v[lo as usize..hi as usize].iter().map(|&b| f32::from_bits(b)).collect(),
-            Dom::AllF01 => (lo..hi).map(|b| f32::from_bits(b as u32)).collect(),
+            // index ONE_BITS + 1 stands for -0.0
+            Dom::AllF01 => (lo..hi).map(|b| if b > ONE_BITS as u64 { -0.0f32 } else { f32::from_bits(b as u32) }).collect(),
         }
     }
     pub fn describe(&self) -> String {
         match self {
-            Dom::List(v) => format!("{} f32 values of [0,1]: all with low 6 mantissa bits zero (every binade, subnormals included) plus +-256-ulp neighbourhoods of 0, 1 and 11 branch thresholds", v.len()),
-            Dom::AllF01 => "all 1,065,353,217 f32 values in [0,1]".into(),
+            Dom::List(v) => format!("{} f32 values of [0,1]: all with low 6 mantissa bits zero (every binade, subnormals included) plus +-256-ulp neighbourhoods of 0, 1 and 11 branch thresholds, and -0.0", v.len()),
+            Dom::AllF01 => "all 1,065,353,217 f32 values in [0,1] and -0.0".into(),
         }
     }
 }
